@@ -611,25 +611,31 @@ func oracleC13(res *Result, c *Case) {
 	for _, st := range stages(c.Err, false) {
 		res.OracleEvals["C13.verbose_shows_every_branch"]++
 		nodes := nodesOfErr(st.E, nil)
-		var v string
-		if ok, _ := catch(func() { v = fmt.Sprintf("%+v", errors.Formattable(st.E)) }); !ok {
-			res.fail(c, "C13.verbose_shows_every_branch", st.Name+": %+v panicked", "C13:verbose-panic")
-			continue
+		targets := []interface{}{errors.Formattable(st.E)}
+		if libraryOutermost(st.E) {
+			targets = append(targets, st.E) // the type's own Format method
 		}
-		i := strings.LastIndex(v, "\nError types:")
-		if i < 0 {
-			res.fail(c, "C13.verbose_shows_every_branch", st.Name+": no Error types line", "C13:verbose-types")
-			continue
-		}
-		typesLine := v[i:]
-		for k, n := range nodes {
-			if !strings.Contains(typesLine, fmt.Sprintf("(%d) ", k+1)) || !strings.Contains(typesLine, fmt.Sprintf("%T", n)) {
-				res.fail(c, "C13.verbose_shows_every_branch", fmt.Sprintf("%s: the Error types line lacks layer %d of %d (%T): %q", st.Name, k+1, len(nodes), n, clipLen(typesLine, 300)), "C13:verbose-branches")
-				break
+		for _, tg := range targets {
+			var v string
+			if ok, _ := catch(func() { v = fmt.Sprintf("%+v", tg) }); !ok {
+				res.fail(c, "C13.verbose_shows_every_branch", st.Name+": %+v panicked", "C13:verbose-panic")
+				continue
 			}
-		}
-		if strings.Contains(typesLine, fmt.Sprintf("(%d) ", len(nodes)+1)) {
-			res.fail(c, "C13.verbose_shows_every_branch", fmt.Sprintf("%s: more types than the %d visible layers", st.Name, len(nodes)), "C13:verbose-branches")
+			i := strings.LastIndex(v, "\nError types:")
+			if i < 0 {
+				res.fail(c, "C13.verbose_shows_every_branch", st.Name+": no Error types line", "C13:verbose-types")
+				continue
+			}
+			typesLine := v[i:]
+			for k, n := range nodes {
+				if !strings.Contains(typesLine, fmt.Sprintf("(%d) ", k+1)) || !strings.Contains(typesLine, fmt.Sprintf("%T", n)) {
+					res.fail(c, "C13.verbose_shows_every_branch", fmt.Sprintf("%s: the Error types line lacks layer %d of %d (%T): %q", st.Name, k+1, len(nodes), n, clipLen(typesLine, 300)), "C13:verbose-branches")
+					break
+				}
+			}
+			if strings.Contains(typesLine, fmt.Sprintf("(%d) ", len(nodes)+1)) {
+				res.fail(c, "C13.verbose_shows_every_branch", fmt.Sprintf("%s: more types than the %d visible layers", st.Name, len(nodes)), "C13:verbose-branches")
+			}
 		}
 	}
 	// branch count, order and per-branch text survive transfer
